@@ -40,6 +40,7 @@ type seenReq struct {
 	uri    string
 	hdr    http.Header
 	body   []byte
+	unread bool // the peer failed before looking at the body
 }
 
 type recorder struct {
@@ -51,7 +52,7 @@ type recorder struct {
 func (rc *recorder) ServeHTTP(w http.ResponseWriter, r *http.Request) {
 	body, _ := io.ReadAll(r.Body)
 	rc.mu.Lock()
-	rc.reqs = append(rc.reqs, seenReq{r.Method, r.RequestURI, r.Header.Clone(), body})
+	rc.reqs = append(rc.reqs, seenReq{r.Method, r.RequestURI, r.Header.Clone(), body, false})
 	st := rc.status
 	rc.mu.Unlock()
 	w.WriteHeader(st)
@@ -76,18 +77,23 @@ var accepted int64 // connections accepted by the resetting peer
 var errBoom = errors.New("verif: transport failure")
 
 // doer is a custom HTTPDoer: records the request it is handed, then fails or answers with any status.
+// With noRead it fails without touching the request body (as a transport that cannot connect does).
 type doer struct {
 	reqs   []seenReq
 	fail   bool
+	noRead bool
 	status int
 }
 
 func (d *doer) Do(r *http.Request) (*http.Response, error) {
 	var body []byte
-	if r.Body != nil {
+	unread := false
+	if d.fail && d.noRead {
+		unread = true
+	} else if r.Body != nil {
 		body, _ = io.ReadAll(r.Body)
 	}
-	d.reqs = append(d.reqs, seenReq{r.Method, r.URL.RequestURI(), r.Header.Clone(), body})
+	d.reqs = append(d.reqs, seenReq{r.Method, r.URL.RequestURI(), r.Header.Clone(), body, unread})
 	if d.fail {
 		return nil, errBoom
 	}
@@ -96,10 +102,9 @@ func (d *doer) Do(r *http.Request) (*http.Response, error) {
 }
 
 const (
-	tkServer     = iota // live test server, answers with the chosen status
-	tkReset             // peer accepts the connection and closes it: transport error
-	tkDoerErr           // custom HTTPDoer returning an error
-	tkDoerStatus        // custom HTTPDoer answering with an arbitrary status
+	tkServer = iota // live test server, answers with the chosen status
+	tkReset         // peer accepts the connection and closes it: transport error
+	tkDoer          // custom HTTPDoer: per call either returns an error or answers with an arbitrary status
 )
 
 // ---------------------------------------------------------------------------------------------
@@ -120,17 +125,28 @@ type callSpec struct {
 	fams      []*dto.MetricFamily
 	gatherErr bool
 	status    int
+	fail      bool // tkDoer: the doer returns an error
+	noRead    bool // tkDoer, fail: ... without reading the body
+}
+
+// step: a builder call or a request; a Pusher's life is any interleaving of them
+type step struct {
+	isCall bool
+	op     bop
+	call   callSpec
 }
 
 type caseSpec struct {
 	scheme, pre string
 	slash       bool
 	job         string
-	ops         []bop
-	calls       []callSpec
+	steps       []step
 	tk          int
 	defClient   bool
 }
+
+func (cs *caseSpec) addOp(o bop)        { cs.steps = append(cs.steps, step{op: o}) }
+func (cs *caseSpec) addCall(c callSpec) { cs.steps = append(cs.steps, step{isCall: true, call: c}) }
 
 type env struct {
 	srv      *httptest.Server
@@ -297,7 +313,7 @@ func genStatus(r *emit.Rng, tk int, okBias bool) int {
 	if okBias && r.Chance(3, 4) {
 		return []int{200, 202}[r.Intn(2)]
 	}
-	if tk == tkDoerStatus {
+	if tk == tkDoer {
 		return doerStatuses[r.Intn(len(doerStatuses))]
 	}
 	return serverStatuses[r.Intn(len(serverStatuses))]
@@ -335,11 +351,65 @@ func genCollector(r *emit.Rng, pool *[]prometheus.Collector, mode int, groupName
 	return c
 }
 
-// genCase: errRate in percent for every error source.
+// bigFamily: one family whose protobuf / text encoding is far above 64 KiB.
+func bigFamily(r *emit.Rng, name string) *dto.MetricFamily {
+	n := 3000 + r.Intn(2500)
+	mf := &dto.MetricFamily{Name: proto.String(name), Help: proto.String("help of " + name), Type: dto.MetricType_GAUGE.Enum()}
+	for k := 0; k < n; k++ {
+		mf.Metric = append(mf.Metric, &dto.Metric{
+			Label: []*dto.LabelPair{{Name: proto.String("la"), Value: proto.String(fmt.Sprintf("v%d", k))},
+				{Name: proto.String("lb"), Value: proto.String("a somewhat longer label value")}},
+			Gauge: &dto.Gauge{Value: proto.Float64(float64(k) / 2)}})
+	}
+	return mf
+}
+
+func smallConflictFamily(name, label string) *dto.MetricFamily {
+	return &dto.MetricFamily{Name: proto.String(name), Help: proto.String("help of " + name), Type: dto.MetricType_GAUGE.Enum(),
+		Metric: []*dto.Metric{{Label: []*dto.LabelPair{{Name: proto.String(label), Value: proto.String("own")}}, Gauge: &dto.Gauge{Value: proto.Float64(1)}}}}
+}
+
+// genBig: a push with a body far above 64 KiB that fails before the transport has consumed the body
+// (or succeeds), followed by further pushes on the same Pusher.
+func genBig(r *emit.Rng, variant int) *caseSpec {
+	cs := &caseSpec{}
+	genURL(r, cs)
+	cs.job = []string{"big", "big job", "b/g"}[r.Intn(3)]
+	cs.defClient = r.Chance(1, 2)
+	if r.Chance(1, 2) {
+		cs.addOp(bop{kind: 0, name: "zone", val: anyString(r, true)})
+	}
+	if r.Chance(1, 3) {
+		cs.addOp(bop{kind: 5, format: formats[r.Intn(2)]})
+	}
+	big := bigFamily(r, "m_a_big")
+	switch variant % 4 {
+	case 0: // the custom client fails without reading the body
+		cs.tk = tkDoer
+		cs.addCall(callSpec{kind: r.Intn(2), fams: []*dto.MetricFamily{big}, fail: true, noRead: true})
+	case 1: // a later family carries a job label: the big family is already encoded
+		cs.tk = []int{tkServer, tkDoer}[r.Intn(2)]
+		cs.addCall(callSpec{kind: r.Intn(2), fams: []*dto.MetricFamily{big, smallConflictFamily("m_z", "job")}, status: 200})
+	case 2: // ... a grouping label
+		cs.tk = []int{tkServer, tkDoer}[r.Intn(2)]
+		cs.addOp(bop{kind: 0, name: "code", val: "1"})
+		cs.addCall(callSpec{kind: r.Intn(2), fams: []*dto.MetricFamily{big, smallConflictFamily("m_z", "code")}, status: 200})
+	default: // a big push that succeeds
+		cs.tk = []int{tkServer, tkDoer}[r.Intn(2)]
+		cs.addCall(callSpec{kind: r.Intn(2), fams: []*dto.MetricFamily{big}, status: 200})
+	}
+	n := 1 + r.Intn(2)
+	for i := 0; i < n; i++ {
+		cs.addCall(callSpec{kind: r.Intn(2), fams: genFamilies(r, 0, nil), status: []int{200, 202}[r.Intn(2)]})
+	}
+	return cs
+}
+
+// genCase builds one Pusher life for the given stream.
 func genCase(r *emit.Rng, stream string) *caseSpec {
 	cs := &caseSpec{}
 	genURL(r, cs)
-	cs.tk = []int{tkServer, tkServer, tkServer, tkDoerStatus, tkDoerErr, tkReset}[r.Intn(6)]
+	cs.tk = []int{tkServer, tkServer, tkServer, tkDoer, tkDoer, tkReset}[r.Intn(6)]
 	cs.defClient = r.Chance(1, 2)
 	var pool []prometheus.Collector
 	var groupNames []string
@@ -347,27 +417,69 @@ func genCase(r *emit.Rng, stream string) *caseSpec {
 		for i := 0; i < n; i++ {
 			name := goodName(r)
 			groupNames = append(groupNames, name)
-			cs.ops = append(cs.ops, bop{kind: 0, name: name, val: anyString(r, true)})
+			cs.addOp(bop{kind: 0, name: name, val: anyString(r, true)})
 		}
+	}
+	regroup := func() { // a label name that is already part of the key, with a new value
+		if len(groupNames) == 0 {
+			grouping(1)
+			return
+		}
+		cs.addOp(bop{kind: 0, name: groupNames[r.Intn(len(groupNames))], val: anyString(r, true)})
+	}
+	doerCall := func(c callSpec) callSpec {
+		if cs.tk == tkDoer && r.Chance(1, 3) {
+			c.fail = true
+			c.noRead = r.Chance(1, 2)
+		}
+		return c
 	}
 	switch stream {
 	case "paths":
-		cs.tk = []int{tkServer, tkServer, tkDoerStatus}[r.Intn(3)]
+		cs.tk = []int{tkServer, tkServer, tkDoer}[r.Intn(3)]
 		cs.job = anyString(r, false)
 		grouping(r.Intn(5))
 		if r.Chance(1, 4) {
-			cs.ops = append(cs.ops, bop{kind: 5, format: genFormat(r)})
+			cs.addOp(bop{kind: 5, format: genFormat(r)})
 		}
-		cs.calls = []callSpec{{kind: r.Intn(3), fams: genFamilies(r, 0, nil), status: 202}}
-		if cs.calls[0].kind != 2 && r.Chance(1, 2) {
-			cs.calls[0].status = 200
+		c := callSpec{kind: r.Intn(3), fams: genFamilies(r, 0, nil), status: 202}
+		if c.kind != 2 && r.Chance(1, 2) {
+			c.status = 200
 		}
+		cs.addCall(c)
 	case "responses":
 		cs.job = []string{"j", "some job", "a/b"}[r.Intn(3)]
 		grouping(r.Intn(2))
 		nc := 1 + r.Intn(3)
 		for i := 0; i < nc; i++ {
-			cs.calls = append(cs.calls, callSpec{kind: r.Intn(3), fams: genFamilies(r, 0, nil), status: genStatus(r, cs.tk, false)})
+			cs.addCall(doerCall(callSpec{kind: r.Intn(3), fams: genFamilies(r, 0, nil), status: genStatus(r, cs.tk, false)}))
+		}
+	case "history": // configuration calls BETWEEN requests on one Pusher
+		cs.tk = []int{tkServer, tkServer, tkDoer}[r.Intn(3)]
+		cs.job = anyString(r, false)
+		grouping(1 + r.Intn(3))
+		nc := 2 + r.Intn(3)
+		for i := 0; i < nc; i++ {
+			c := callSpec{kind: r.Intn(3), fams: genFamilies(r, 0, nil), status: 202}
+			if c.kind != 2 && r.Chance(1, 2) {
+				c.status = 200
+			}
+			cs.addCall(doerCall(c))
+			switch r.Intn(8) {
+			case 0:
+				grouping(1)
+			case 1:
+				cs.addOp(bop{kind: 4, user: anyString(r, true), pw: anyString(r, true)})
+			case 2:
+				cs.addOp(bop{kind: 3, hdr: genHeader(r)})
+			case 3:
+				cs.addOp(bop{kind: 5, format: genFormat(r)})
+			default:
+				regroup()
+				if r.Chance(1, 4) {
+					regroup()
+				}
+			}
 		}
 	default: // life, malformed
 		bad := stream == "malformed"
@@ -381,39 +493,46 @@ func genCase(r *emit.Rng, stream string) *caseSpec {
 		if p(3, 20) {
 			cs.job = ""
 		}
-		nops := 2 + r.Intn(7)
-		for i := 0; i < nops; i++ {
-			switch r.Intn(9) {
-			case 0, 1, 2:
-				if p(4, 30) {
-					cs.ops = append(cs.ops, bop{kind: 0, name: badNames[r.Intn(len(badNames))], val: anyString(r, true)})
-				} else {
+		someOps := func(nops int) {
+			for i := 0; i < nops; i++ {
+				switch r.Intn(10) {
+				case 0, 1, 2:
+					if p(4, 30) {
+						cs.addOp(bop{kind: 0, name: badNames[r.Intn(len(badNames))], val: anyString(r, true)})
+					} else {
+						grouping(1)
+					}
+				case 3:
+					mode := 0
+					if p(10, 50) {
+						mode = 1 + r.Intn(4)
+					}
+					cs.addOp(bop{kind: 1, coll: genCollector(r, &pool, mode, groupNames)})
+				case 4:
+					cs.addOp(bop{kind: 2})
+				case 5:
+					if r.Chance(1, 5) {
+						cs.addOp(bop{kind: 3, hdr: nil})
+					} else {
+						cs.addOp(bop{kind: 3, hdr: genHeader(r)})
+					}
+				case 6:
+					cs.addOp(bop{kind: 4, user: anyString(r, true), pw: anyString(r, true)})
+				case 7:
+					cs.addOp(bop{kind: 5, format: genFormat(r)})
+				case 8:
+					regroup()
+				default:
 					grouping(1)
 				}
-			case 3:
-				mode := 0
-				if p(10, 50) {
-					mode = 1 + r.Intn(4)
-				}
-				cs.ops = append(cs.ops, bop{kind: 1, coll: genCollector(r, &pool, mode, groupNames)})
-			case 4:
-				cs.ops = append(cs.ops, bop{kind: 2})
-			case 5:
-				if r.Chance(1, 5) {
-					cs.ops = append(cs.ops, bop{kind: 3, hdr: nil})
-				} else {
-					cs.ops = append(cs.ops, bop{kind: 3, hdr: genHeader(r)})
-				}
-			case 6:
-				cs.ops = append(cs.ops, bop{kind: 4, user: anyString(r, true), pw: anyString(r, true)})
-			case 7:
-				cs.ops = append(cs.ops, bop{kind: 5, format: genFormat(r)})
-			default:
-				grouping(1)
 			}
 		}
+		someOps(2 + r.Intn(7))
 		nc := 1 + r.Intn(3)
 		for i := 0; i < nc; i++ {
+			if i > 0 {
+				someOps(r.Intn(3))
+			}
 			c := callSpec{kind: r.Intn(3), status: genStatus(r, cs.tk, true)}
 			conflict := 0
 			if p(8, 35) {
@@ -421,7 +540,7 @@ func genCase(r *emit.Rng, stream string) *caseSpec {
 			}
 			c.fams = genFamilies(r, conflict, groupNames)
 			c.gatherErr = p(5, 25)
-			cs.calls = append(cs.calls, c)
+			cs.addCall(doerCall(c))
 		}
 	}
 	return cs
@@ -594,6 +713,10 @@ func runCase(e *env, cs *caseSpec) (term string, nontrivial bool, tags []string)
 		return u
 	}
 	p := push.New(mk(host), cs.job)
+	ib := emit.None()
+	if p.Error() != nil {
+		ib = emit.Some(berrTerm(p.Error()))
+	}
 	oreg := prometheus.NewRegistry() // mirrors the Pusher's private registry
 	oracle := prometheus.Gatherers{oreg}
 	var curFams []*dto.MetricFamily
@@ -605,10 +728,7 @@ func runCase(e *env, cs *caseSpec) (term string, nontrivial bool, tags []string)
 
 	d := &doer{}
 	switch cs.tk {
-	case tkDoerErr:
-		d.fail = true
-		p.Client(d)
-	case tkDoerStatus:
+	case tkDoer:
 		p.Client(d)
 	case tkReset:
 		p.Client(e.client)
@@ -618,49 +738,64 @@ func runCase(e *env, cs *caseSpec) (term string, nontrivial bool, tags []string)
 		}
 	}
 
-	var ops []string
-	nGroup := 0
-	for _, o := range cs.ops {
-		switch o.kind {
-		case 0:
-			p.Grouping(o.name, o.val)
-			ops = append(ops, emit.C(0, emit.S(o.name), emit.S(o.val)))
-			nGroup++
-		case 1:
-			fails := oreg.Register(o.coll) != nil
-			p.Collector(o.coll)
-			ops = append(ops, emit.C(1, emit.B(fails)))
-		case 2:
-			empty := prometheus.GathererFunc(func() ([]*dto.MetricFamily, error) { return nil, nil })
-			p.Gatherer(empty)
-			oracle = append(oracle, empty)
-			ops = append(ops, emit.C(2))
-		case 3:
-			if o.hdr == nil {
-				p.Header(nil)
-				ops = append(ops, emit.C(3, emit.None()))
-			} else {
-				ops = append(ops, emit.C(3, emit.Some(hdrTerm(o.hdr, false)))) // before the Pusher can touch the map
-				p.Header(o.hdr)
+	var steps, obs []string
+	nGroup, nCalls, callsSoFar := 0, 0, 0
+	seenNames := map[string]bool{}
+	for _, st := range cs.steps {
+		if !st.isCall {
+			o := st.op
+			var t string
+			switch o.kind {
+			case 0:
+				p.Grouping(o.name, o.val)
+				t = emit.C(0, emit.S(o.name), emit.S(o.val))
+				nGroup++
+				if seenNames[o.name] && callsSoFar > 0 {
+					tags = append(tags, "regroup-between-requests")
+				}
+				seenNames[o.name] = true
+			case 1:
+				fails := oreg.Register(o.coll) != nil
+				p.Collector(o.coll)
+				t = emit.C(1, emit.B(fails))
+			case 2:
+				empty := prometheus.GathererFunc(func() ([]*dto.MetricFamily, error) { return nil, nil })
+				p.Gatherer(empty)
+				oracle = append(oracle, empty)
+				t = emit.C(2)
+			case 3:
+				if o.hdr == nil {
+					p.Header(nil)
+					t = emit.C(3, emit.None())
+				} else {
+					t = emit.C(3, emit.Some(hdrTerm(o.hdr, false))) // before the Pusher can touch the map
+					p.Header(o.hdr)
+				}
+			case 4:
+				p.BasicAuth(o.user, o.pw)
+				t = emit.C(4, emit.S(o.user), emit.S(o.pw))
+			case 5:
+				p.Format(o.format)
+				t = emit.C(5, emit.S(string(o.format)))
 			}
-		case 4:
-			p.BasicAuth(o.user, o.pw)
-			ops = append(ops, emit.C(4, emit.S(o.user), emit.S(o.pw)))
-		case 5:
-			p.Format(o.format)
-			ops = append(ops, emit.C(5, emit.S(string(o.format))))
+			steps = append(steps, emit.C(0, t))
+			eb := emit.None()
+			if p.Error() != nil {
+				eb = emit.Some(berrTerm(p.Error()))
+			}
+			obs = append(obs, emit.C(0, eb))
+			if callsSoFar > 0 {
+				tags = append(tags, "config-between-requests")
+			}
+			continue
 		}
-	}
-	sticky := p.Error()
-	ib := emit.None()
-	if sticky != nil {
-		ib = emit.Some(berrTerm(sticky))
-		tags = append(tags, "builder-error")
-		nontrivial = true
-	}
-
-	var calls, obs []string
-	for _, c := range cs.calls {
+		c := st.call
+		nCalls++
+		callsSoFar++
+		sticky := p.Error()
+		if sticky != nil {
+			nontrivial = true
+		}
 		curFams, curErr = c.fams, nil
 		if c.gatherErr {
 			curErr = errGather
@@ -671,16 +806,16 @@ func runCase(e *env, cs *caseSpec) (term string, nontrivial bool, tags []string)
 			gterm = emit.Some(famsTerm(want))
 		}
 		tr := emit.C(0, emit.I(c.status))
-		if cs.tk == tkReset || cs.tk == tkDoerErr {
+		if cs.tk == tkReset || (cs.tk == tkDoer && c.fail) {
 			tr = emit.C(1)
 		}
-		calls = append(calls, emit.Tup(emit.I(c.kind), gterm, tr))
+		steps = append(steps, emit.C(1, emit.Tup(emit.I(c.kind), gterm, tr)))
 
 		e.rec.reset(c.status)
 		if c.status < 100 || c.status > 999 {
 			e.rec.reset(500) // never used: such statuses are only given to the custom doer
 		}
-		d.reqs, d.status = nil, c.status
+		d.reqs, d.status, d.fail, d.noRead = nil, c.status, c.fail, c.noRead
 		acc0 := atomic.LoadInt64(&accepted)
 		var err error
 		switch c.kind {
@@ -714,9 +849,12 @@ func runCase(e *env, cs *caseSpec) (term string, nontrivial bool, tags []string)
 		if len(seen) > 0 {
 			sr := seen[0]
 			req = emit.Some(emit.Tup(emit.I(methodCode(sr.method)), emit.S(sr.uri), hdrTerm(sr.hdr, fromServer)))
-			if c.kind == 2 {
+			switch {
+			case sr.unread:
+				ok = true // the peer never looked at the body
+			case c.kind == 2:
 				ok = len(sr.body) == 0
-			} else {
+			default:
 				ok = wantErr == nil && bodyOK(sr, want)
 			}
 			if nGroup > 0 || cs.job != "j" {
@@ -725,6 +863,14 @@ func runCase(e *env, cs *caseSpec) (term string, nontrivial bool, tags []string)
 			tags = append(tags, "sent:"+sr.method)
 			if ct := sr.hdr.Get("Content-Type"); c.kind != 2 {
 				tags = append(tags, "format:"+strings.SplitN(ct, ";", 2)[0]+fmt.Sprintf("/%d", len(ct)))
+				switch {
+				case sr.unread:
+					tags = append(tags, "body:unread")
+				case len(sr.body) > 64<<10:
+					tags = append(tags, "body:>64KiB")
+				default:
+					tags = append(tags, "body:<=64KiB")
+				}
 			}
 		} else {
 			tags = append(tags, "nothing-seen")
@@ -734,10 +880,10 @@ func runCase(e *env, cs *caseSpec) (term string, nontrivial bool, tags []string)
 			nontrivial = true
 		}
 		tags = append(tags, "err:"+strings.SplitN(strings.Trim(et, "()"), " ", 2)[0])
-		obs = append(obs, emit.Tup(et, emit.I(sent), req, emit.B(ok)))
+		obs = append(obs, emit.C(1, emit.Tup(et, emit.I(sent), req, emit.B(ok))))
 	}
-	tags = append(tags, fmt.Sprintf("transport:%d", cs.tk), fmt.Sprintf("grouping:%d", min(nGroup, 4)), fmt.Sprintf("calls:%d", len(cs.calls)))
-	term = emit.C(0, emit.S(mk("H")), emit.S(cs.pre), emit.S(cs.job), emit.L(ops), emit.L(calls), emit.Tup(ib, emit.L(obs)))
+	tags = append(tags, fmt.Sprintf("transport:%d", cs.tk), fmt.Sprintf("grouping:%d", min(nGroup, 4)), fmt.Sprintf("calls:%d", nCalls))
+	term = emit.C(0, emit.S(mk("H")), emit.S(cs.pre), emit.S(cs.job), emit.L(steps), emit.Tup(ib, emit.L(obs)))
 	return term, nontrivial, tags
 }
 
@@ -865,7 +1011,7 @@ func runC15(c *cli.Ctx) error {
 	for _, st := range []struct {
 		name string
 		n    int
-	}{{"paths", 700}, {"life", 600}, {"responses", 250}, {"malformed", 400}} {
+	}{{"paths", 700}, {"life", 600}, {"history", 400}, {"responses", 250}, {"malformed", 400}} {
 		w = emit.NewWriter(c.Out, "C15", st.name)
 		for i := 0; i < st.n*c.Scale; i++ {
 			cs := genCase(r, st.name)
@@ -877,17 +1023,31 @@ func runC15(c *cli.Ctx) error {
 		}
 	}
 
+	// --- bodies far above 64 KiB, failing-then-succeeding pushes on one Pusher ---
+	w = emit.NewWriter(c.Out, "C15", "bigbody")
+	for i := 0; i < 7+c.Scale; i++ {
+		term, nt, tags := runCase(e, genBig(r, i))
+		w.Add(term, nt, tags...)
+	}
+	if err := w.Flush(); err != nil {
+		return err
+	}
+
 	// --- known findings, one exact input each (known_findings.txt) ---
+	known := func(name, val string) *caseSpec {
+		cs := &caseSpec{scheme: "http://", job: "j", tk: tkServer}
+		cs.addOp(bop{kind: 0, name: name, val: val})
+		cs.addCall(callSpec{kind: 0, status: 200})
+		return cs
+	}
 	w = emit.NewWriter(c.Out, "C15", "known-label-name-slash")
-	term, _, tags := runCase(e, &caseSpec{scheme: "http://", job: "j", ops: []bop{{kind: 0, name: "x/y", val: "v"}},
-		calls: []callSpec{{kind: 0, status: 200}}, tk: tkServer})
+	term, _, tags := runCase(e, known("x/y", "v"))
 	w.Add(term, true, tags...)
 	if err := w.Flush(); err != nil {
 		return err
 	}
 	w = emit.NewWriter(c.Out, "C15", "known-grouping-job")
-	term, _, tags = runCase(e, &caseSpec{scheme: "http://", job: "j", ops: []bop{{kind: 0, name: "job", val: "x"}},
-		calls: []callSpec{{kind: 0, status: 200}}, tk: tkServer})
+	term, _, tags = runCase(e, known("job", "x"))
 	w.Add(term, true, tags...)
 	return w.Flush()
 }
